@@ -457,8 +457,9 @@ struct C06 : World {
     Rng q(seed, "frameseq");
     bool seq_mode = q.chance(2, 3);
     p.knobs["lead0"] = seq_mode;  // undefined lines may lead a frame; the closing frame is sent twice (see run())
-    // experiments only (`--tier lead0strict`, never used by bin/check): without the guard described in run()
-    if (tier == "lead0strict") p.knobs["lead0_strict"] = 1;
+    // the guard described in run() is lifted: the dvb_demux.c defect it steered around is repaired in /repo
+    // (regress/C06/lead0-same-field.json); plans without the knob (older replay files) keep the guard
+    if (seq_mode || tier == "lead0strict") p.knobs["lead0_strict"] = 1;
     auto cfg_op = [&](int what, int64_t a, int64_t b) { Op o; o.task = 0; o.kind = "cfg"; o.a = {what, a, b}; p.ops.push_back(o); };
     if (r.chance(3, 4)) { int k = (int)r.below(8); cfg_op(0, k, 0); }
     if (r.chance(3, 4)) {
@@ -725,12 +726,12 @@ struct C06 : World {
       // canonical form: at most four undefined Teletext lines, and never so many lines that a joined frame
       // exceeds 64 (the frame buffer of the demultiplexer).  Undefined lines at the head of a frame:
       //  - plans without the knob lead0 (older replay files): never, as it used to be;
-      //  - not when the previous sliced data unit on the wire has the field parity these undefined lines will
-      //    get and a numbered line of this frame is not above the last numbered line sent before (suspected
-      //    defect of dvb_demux.c, /verif/out/C06/lead0-same-field.json: the demultiplexer adds the undefined
-      //    units to the frame it is collecting, meets the lower line number in the middle of the packet, calls
-      //    that an error and drops both frames).  The knob lead0_strict, which
-      //    no generator sets, lifts this guard.
+      //  - plans with lead0 but without lead0_strict (replay files written while the defect was open): not when the
+      //    previous sliced data unit on the wire has the field parity these undefined lines will get and a
+      //    numbered line of this frame is not above the last numbered line sent before (defect of dvb_demux.c,
+      //    repaired in /repo, regress/C06/lead0-same-field.json: the demultiplexer added the undefined units to
+      //    the frame it was collecting, met the lower line number in the middle of the packet, called that an
+      //    error and dropped both frames).  Generated plans set lead0_strict: nothing is steered around.
       {
         bool lead_ok = lead0;
         if (lead0 && !lead0_strict && prev_wire_field >= 0 && last_nz > 0) {
